@@ -608,6 +608,20 @@ package protocol
 //@   top-ensures !old(noBodyStatus(h.statusCode)) && contentLength >= 0 ==> sclDel
 //@   top-ensures !old(noBodyStatus(h.statusCode)) && contentLength < 0 ==> sclSet
 
+// C17 (Del on an argument list): a deleted entry is moved to the freed slot behind the shortened list - the list is
+// compacted with copy, never re-sliced with append - so every slot of the backing array keeps buffers of its own (an
+// entry added later re-uses the spare slot's buffers and must not share them with a surviving entry).
+//@ func delAllArgs(args, key) r
+//@   props C17
+//@   abstract
+//@   noinline
+//@   panics
+//@   assert before copy: sameArray(arg0, args) && sameArray(arg1, args) && len(arg1) == len(arg0) - 1
+//@   forbid append!
+//@   assert before return: len(args) == n
+//@   loop 0:
+//@     invariant len(args) == n
+
 // C17 (Set on a parsed argument list): updating an existing key stores the new has-value flag together with the new
 // value - a key that was parsed without '=' and is then given a value is serialised with that value.
 //@ func setArg(h, key, value, noValue) r
